@@ -49,6 +49,8 @@ func (sw *shardWriter) write(line []byte) {
 	sw.count++
 	if len(sw.samples) < 4 && len(line) < 600 {
 		sw.samples = append(sw.samples, string(line))
+	} else if sw.count == 1 {
+		sw.samples = append(sw.samples, string(line[:600])+"...(truncated)")
 	}
 }
 
